@@ -61,6 +61,15 @@ func newAuthority(cn string) *authority {
 
 // leaf issues a certificate for (cn, sans); ca == nil makes it self-signed.
 func leaf(ca *authority, cn string, sans []string, expired bool) *leafCert {
+	na := time.Now().Add(24 * time.Hour)
+	if expired {
+		na = time.Now().Add(-1 * time.Hour)
+	}
+	return leafUntil(ca, cn, sans, na)
+}
+
+// leafUntil issues a certificate valid until notAfter.
+func leafUntil(ca *authority, cn string, sans []string, notAfter time.Time) *leafCert {
 	key, err := ecdsa.GenerateKey(elliptic.P256(), rand.Reader)
 	if err != nil {
 		panic(err)
@@ -70,12 +79,9 @@ func leaf(ca *authority, cn string, sans []string, expired bool) *leafCert {
 		Subject:      pkix.Name{CommonName: cn},
 		DNSNames:     sans,
 		NotBefore:    time.Now().Add(-3 * time.Hour),
-		NotAfter:     time.Now().Add(24 * time.Hour),
+		NotAfter:     notAfter,
 		KeyUsage:     x509.KeyUsageDigitalSignature,
 		ExtKeyUsage:  []x509.ExtKeyUsage{x509.ExtKeyUsageServerAuth, x509.ExtKeyUsageClientAuth},
-	}
-	if expired {
-		tmpl.NotAfter = time.Now().Add(-1 * time.Hour)
 	}
 	parent, signer := tmpl, key
 	if ca != nil {
